@@ -89,6 +89,13 @@ T = {
             'across the bit and reference budgets of each layout incl. headers tuned to leave -1..2 bits; serialize never raises, cell decodes under R3 to the same '
             'message, the parser returns it from its own cell and from every valid placement; stand-alone StateInit, currencies, wallet / NFT data, HashUpdate.',
             'R3 written from the bundled block.tlb; addr_var not generated'),
+    'C16': ('reference-model monitor: independent declarative transcription of block.tlb (R3, lib/tlbspec.py) encodes generated values, the parsed object is compared '
+            'field by field (postcondition on the slice: exactly the sentinel bits and reference remain)',
+            'exploration', '4/C16',
+            '85 constructors of 45 types (transactions with the 7 description kinds and all phase variants, accounts, in/out message descriptors, envelopes, value flows, '
+            'shard descriptors, validator sets, catchain config) plus hand-written BlockInfo (all 16 structure flag combinations), McStateExtra and the bundled main-net '
+            'block; integers at the boundaries of their width (>= 2^63 for uint64); every optional-field combination reachable by the generator.',
+            'R3 transcription of the bundled block.tlb; attribute-name differences recorded in ALIAS/TAGS tables, not alarmed'),
     'C17': ('reference-model monitor (independent block.tlb VmStack encoder) + M-SNAP on caller values + double-serialisation metamorphic check',
             'exploration', '4/C17',
             'Stacks over all value kinds, integer boundaries, tuples to length 255 / nesting 6, all ten continuation kinds with control data; library '
@@ -133,8 +140,7 @@ def main():
         })
     claimed = {c['property_id'] for c in checks}
     props = [json.loads(l)['id'] for l in open(os.path.join(HERE, 'properties.jsonl'))]
-    na = [{'property_id': p, 'reason': 'check not built yet in this round (planned: DESIGN.md section 4); no claim is made'}
-          for p in props if p not in claimed]
+    na = [{'property_id': p, 'reason': 'no check module present for this property; no claim is made'} for p in props if p not in claimed]
     m = {
         'version': 1,
         'setup_cmd': f'{PY} lib/selftest.py',
